@@ -43,21 +43,34 @@ def classify(text):
         return "resource", 0
 
 
-def offer(text, offset):
-    """Call the real verify() on `text` with the given line offset; -> event for TraceVerify."""
+def offer(text, offset, other=False):
+    """Call the real verify() on `text` with the given line offset; -> event for TraceVerify.
+    other=True: the text is offered as ANOTHER file of a multi-file submission (verify(text, filename='helper.py'));
+    the main file's section offset does not apply to it and the stored helper file is shorter than the text."""
     from pedal.core.report import MAIN_REPORT as R
     from pedal.source.source import verify
     cls, line = classify(text)
-    R.submission.replace_main(text)
-    R.submission.clear_line_offsets()
-    if offset:
-        R.submission.set_line_offset(offset)
+    if other:
+        R.submission.files["helper.py"] = "h = 1\n"
+        R.submission.replace_main("m = 0\n" * 40)        # (the main file is longer than the text, the stored helper shorter)
+        R.submission.clear_line_offsets()
+        if offset:
+            R.submission.set_line_offset(offset)      # belongs to the main file
+        offset = 0
+    else:
+        R.submission.replace_main(text)
+        R.submission.clear_line_offsets()
+        if offset:
+            R.submission.set_line_offset(offset)
     n0 = len(R.feedback) + len(R.ignored_feedback)
     before = {id(f) for f in R.feedback}
     ev = {"cls": cls, "line": line, "offset": offset, "raised": False, "nsyntax": 0, "fbline": 0, "blankfb": False,
           "tree_ok": False}
     try:
-        verify(report=R)
+        if other:
+            verify(text, filename="helper.py", report=R)
+        else:
+            verify(report=R)
     except Exception as e:
         ev["raised"] = True
         ev["error"] = "%s: %s" % (type(e).__name__, e)
@@ -140,9 +153,10 @@ def text_chunk(items, extra):
     from engine.core import setup_repo_path
     setup_repo_path()
     out = []
-    for text, offset in items:
+    for item in items:
+        text, offset = item[:2]
         fresh()
-        ev = offer(text, offset)
+        ev = offer(text, offset, other=len(item) > 2 and item[2] == "other")
         out.append({"events": [ev], "texts": [text]})
     return out
 
